@@ -437,3 +437,70 @@ def fam_discrete_delays_fixed():
     out.append(("F9x:rounding", mk(lambda fp: [E('a0/li/x', 'a1/li/u', fp(), delay=dt * F(12, 5)),
                                                E('a1/li/x', 'a2/li/u', fp(), delay=dt * F(13, 5))], "d/dt = 2.4 and 2.6")))
     return out
+
+
+GAMMA_PAIRS = [(F(1, 2), F(1, 4)), (F(1, 2), F(1, 2)), (F(1), F(2, 3)), (F(1), F(3, 5)), (F(1), F(1, 2)),
+               (F(3, 4), F(1, 4)), (F(3, 2), F(3, 4)), (F(2), F(1))]
+
+
+def fam_gamma(seed=0, n=12, max_order=4):
+    """C11: edges with (delay, spread): orders round((d/s)^2) in 1..max_order, pairs that round to the same order with
+    different rates, edges sharing sources/targets, mixed with undelayed edges."""
+    rnd = random.Random(seed)
+    pairs = [p for p in GAMMA_PAIRS if round((p[0] / p[1]) ** 2) <= max_order]
+    out = []
+    for k in range(n):
+        fp = FP()
+        ops = {'li': op_leaky(fp), 'sg': op_sigmoid_alg(fp, 'sg', m='m', v='x')}
+        ops['li'].vars['u'] = ('input', F(0))
+        na = rnd.randint(2, 3)
+        nodes = {}
+        for i in range(na):
+            nodes[f"a{i}"] = NodeSpec(['li', 'sg'], _node_overrides(fp, ops, ['li', 'sg']))
+        names = list(nodes)
+        edges, seen = [], set()
+        ne = rnd.randint(1, 4)
+        tries = 0
+        while len(edges) < ne and tries < 40:
+            tries += 1
+            s, t = rnd.choice(names), rnd.choice(names)
+            if (s, t) in seen:
+                continue
+            seen.add((s, t))
+            src = f"{s}/sg/m" if k % 2 else f"{s}/li/x"
+            if rnd.random() < 0.2 and edges:
+                edges.append(EdgeSpec(src, f"{t}/li/u", fp()))
+            else:
+                d, sp = rnd.choice(pairs)
+                edges.append(EdgeSpec(src, f"{t}/li/u", fp(), delay=d, spread=sp))
+        out.append((f"F11:{seed}:{k}", ModelSpec('m', ops, nodes, edges, note="gamma-kernel edges")))
+    return out
+
+
+def fam_gamma_fixed():
+    out = []
+    E = EdgeSpec
+
+    def mk(edges_fn, note, n=3):
+        fp = FP()
+        ops = {'li': op_leaky(fp)}
+        ops['li'].vars['u'] = ('input', F(0))
+        nodes = {f"a{i}": NodeSpec(['li'], _node_overrides(fp, ops, ['li'])) for i in range(n)}
+        return ModelSpec('m', ops, nodes, edges_fn(fp), note=note)
+    out.append(("F11x:same-order-different-rate", mk(lambda fp: [E('a0/li/x', 'a1/li/u', fp(), delay=F(1, 2), spread=F(1, 4)),
+                                                                 E('a0/li/x', 'a2/li/u', fp(), delay=F(1), spread=F(1, 2))],
+                                                     "order 4 rate 8 and order 4 rate 4 out of one source")))
+    out.append(("F11x:different-order", mk(lambda fp: [E('a0/li/x', 'a1/li/u', fp(), delay=F(1), spread=F(2, 3)),
+                                                       E('a0/li/x', 'a2/li/u', fp(), delay=F(1), spread=F(3, 5))],
+                                           "orders 2 and 3, same delay")))
+    out.append(("F11x:shared-target", mk(lambda fp: [E('a0/li/x', 'a2/li/u', fp(), delay=F(1, 2), spread=F(1, 4)),
+                                                     E('a1/li/x', 'a2/li/u', fp(), delay=F(1), spread=F(2, 3))],
+                                         "two kernels into one target")))
+    out.append(("F11x:mixed", mk(lambda fp: [E('a0/li/x', 'a1/li/u', fp(), delay=F(1, 2), spread=F(1, 2)),
+                                             E('a0/li/x', 'a2/li/u', fp()), E('a1/li/x', 'a0/li/u', fp())],
+                                 "order-1 kernel + undelayed edges")))
+    out.append(("F11x:identical-kernels", mk(lambda fp: [E('a0/li/x', 'a1/li/u', fp(), delay=F(1), spread=F(1, 2)),
+                                                         E('a0/li/x', 'a2/li/u', fp(), delay=F(1), spread=F(1, 2)),
+                                                         E('a1/li/x', 'a0/li/u', fp(), delay=F(1), spread=F(1, 2))],
+                                             "three edges with the same kernel")))
+    return out
